@@ -266,19 +266,21 @@ theorem pulse_allSorted (never d : Nat) : ∀ (k : Nat),
 
 /-! ## The wake-up time -/
 
-/-- `GetPulseTimeAux` leaves `min` at or below the node's new aggregate time, and never raises it -/
+/-- `GetPulseTimeAux` leaves `min` at or below the node's new aggregate time, and never raises it; the new aggregate is
+    `min(own time, first scheduled child)` — with own time 0 when the node's request does not stand -/
 theorem gptFinish_min (never d : Nat) (w w' : World) (n mn mn' : Nat)
     (h : gptFinish never d w n mn = some (w', mn')) :
-    mn' ≤ mn ∧ mn' ≤ (w'.f n).agg ∧ (w'.f n).agg = min (w.f n).myTime (firstSchedAgg never w.f n) ∧
+    mn' ≤ mn ∧ mn' ≤ (w'.f n).agg ∧
+    (w'.f n).agg = min (if (w.f n).valid = true then (w.f n).myTime else 0) (firstSchedAgg never w.f n) ∧
     (mn' = mn ∨ mn' = (w'.f n).agg) := by
   simp only [gptFinish] at h
+  generalize (min (if (w.f n).valid = true then (w.f n).myTime else 0) (firstSchedAgg never w.f n)) = a at h ⊢
   split at h
   · rename_i f4 h4
     cases h
-    have hagg : (f4 n).agg = min (w.f n).myTime (firstSchedAgg never w.f n) := by
-      have e0 : (upd w.f n { (w.f n) with agg := min (w.f n).myTime (firstSchedAgg never w.f n) } n).agg
-          = min (w.f n).myTime (firstSchedAgg never w.f n) := by simp [upd]
-      generalize (upd w.f n { (w.f n) with agg := min (w.f n).myTime (firstSchedAgg never w.f n) }) = f3 at h4 e0
+    have hagg : (f4 n).agg = a := by
+      have e0 : (upd w.f n { (w.f n) with agg := a } n).agg = a := by simp [upd]
+      generalize (upd w.f n { (w.f n) with agg := a }) = f3 at h4 e0
       split at h4
       · split at h4
         · rw [(resched_sameScalars never _ _ _ _ _ _ h4 n).2.2.1]; exact e0
@@ -286,13 +288,36 @@ theorem gptFinish_min (never d : Nat) (w w' : World) (n mn mn' : Nat)
       · cases h4; exact e0
     show _ ∧ _ ≤ (f4 n).agg ∧ (f4 n).agg = _ ∧ (_ ∨ _ = (f4 n).agg)
     rw [hagg]
-    generalize min (w.f n).myTime (firstSchedAgg never w.f n) = a
     by_cases hlt : a < mn
     · simp only [hlt, if_true]
       exact ⟨by omega, Nat.le_refl _, trivial, Or.inr trivial⟩
     · simp only [hlt, if_false]
       exact ⟨Nat.le_refl _, by omega, trivial, Or.inl trivial⟩
   · cases h
+
+/-- the repaired behaviour: when `GetPulseTimeAux` files a node, either the node's request stands or its aggregate time
+    is 0 and so is the reported wake-up time (the event loop will not wait) -/
+theorem gptFinish_live (never d : Nat) (w w' : World) (n mn mn' : Nat)
+    (h : gptFinish never d w n mn = some (w', mn')) :
+    (w'.f n).valid = (w.f n).valid ∧ ((w.f n).valid = false → (w'.f n).agg = 0 ∧ mn' = 0) := by
+  have hm := gptFinish_min never d w w' n mn mn' h
+  refine ⟨?_, fun hv => ?_⟩
+  · simp only [gptFinish] at h
+    generalize (min (if (w.f n).valid = true then (w.f n).myTime else 0) (firstSchedAgg never w.f n)) = a at h
+    split at h
+    · rename_i f4 h4
+      cases h
+      have e0 : (upd w.f n { (w.f n) with agg := a } n).valid = (w.f n).valid := by simp [upd]
+      generalize (upd w.f n { (w.f n) with agg := a }) = f3 at h4 e0
+      split at h4
+      · split at h4
+        · rw [(resched_sameScalars never _ _ _ _ _ _ h4 n).1]; exact e0
+        · cases h4; exact e0
+      · cases h4; exact e0
+    · cases h
+  · have h0 : (w'.f n).agg = 0 := by
+      rw [hm.2.2.1, hv]; simp
+    exact ⟨h0, by have := hm.2.1; omega⟩
 
 /-- the nodes below `r` (reflexive-transitive closure of the parent pointer) -/
 inductive Desc (f : Forest) (r : Nat) : Nat → Prop
@@ -304,10 +329,12 @@ theorem desc_trans {f : Forest} {r a n : Nat} (h1 : Desc f r a) (h2 : Desc f a n
   | refl => exact h1
   | step p c _ hc ih => exact Desc.step p c ih hc
 
-/-- the tree below `r` is settled: no child waits for recalculation, every aggregate is what
-    `GetPulseTimeAux` computes, SCHEDULED lists are sorted, UNSCHEDULED children have aggregate `never` -/
+/-- the tree below `r` is settled: no child waits for recalculation, every aggregate is at or below the node's own time
+    and its first scheduled child's aggregate (what `GetPulseTimeAux` computes), SCHEDULED lists are sorted, UNSCHEDULED
+    children have aggregate `never` -/
 structure Settled (never : Nat) (f : Forest) (r : Nat) : Prop where
-  agg_eq : ∀ p, Desc f r p → (f p).agg = min (f p).myTime (firstSchedAgg never f p)
+  agg_my : ∀ p, Desc f r p → (f p).agg ≤ (f p).myTime
+  agg_fsa : ∀ p, Desc f r p → (f p).agg ≤ firstSchedAgg never f p
   agg_le : ∀ p, Desc f r p → (f p).agg ≤ never
   sorted : ∀ p, Desc f r p → Sorted (fun i => (f i).agg) (f p).sched
   filed : ∀ p c, Desc f r p → (f c).parent = some p →
@@ -315,7 +342,7 @@ structure Settled (never : Nat) (f : Forest) (r : Nat) : Prop where
 
 theorem settled_child_le (never : Nat) (f : Forest) (r p c : Nat) (h : Settled never f r)
     (hp : Desc f r p) (hc : (f c).parent = some p) : (f p).agg ≤ (f c).agg := by
-  have ha := h.agg_eq p hp
+  have ha := h.agg_fsa p hp
   have hs := h.sorted p hp
   rcases h.filed p c hp hc with hm | ⟨_, hn⟩
   · unfold firstSchedAgg at ha
@@ -324,9 +351,8 @@ theorem settled_child_le (never : Nat) (f : Forest) (r p c : Nat) (h : Settled n
     | cons x xs =>
       rw [hl] at ha hm hs
       simp only [] at ha
-      have hx : (f p).agg ≤ (f x).agg := by rw [ha]; exact Nat.min_le_right _ _
       rcases List.mem_cons.mp hm with rfl | hm
-      · exact hx
+      · exact ha
       · have := (List.pairwise_cons.mp hs).1 c hm
         simp only [] at this
         omega
@@ -340,8 +366,7 @@ theorem settled_agg_le (never : Nat) (f : Forest) (r n : Nat) (h : Settled never
     | refl => exact Nat.le_refl _
     | step p c hp hc ih => exact Nat.le_trans ih (settled_child_le never f r p c h hp hc)
   refine ⟨key, ?_⟩
-  have := h.agg_eq n hn
-  have : (f n).agg ≤ (f n).myTime := by rw [this]; exact Nat.min_le_left _ _
+  have := h.agg_my n hn
   omega
 
 end Muscle.Pulse
